@@ -170,7 +170,7 @@ pub fn run_dedupe(op: DedupeOp, config: DedupeConfig, log: &dyn Log) -> Result<(
             dedupe_config.rf_over = Some(c.rf_over())
         }
         if dedupe_config.isolated_roots.is_empty() && c.isolate {
-            dedupe_config.isolated_roots = c.input_paths().collect();
+            dedupe_config.isolated_roots = c.input_paths().map(|p| p.canonicalize()).collect();
         }
     }
 
